@@ -409,6 +409,8 @@ class Explorer:
             t = subst(st.test, env)
             self._record_calls(t, st.test, p, st)
             val = fold(t, self.scope) if self.fold_tests else UNKNOWN
+            if val is UNKNOWN:
+                val = _display_vs_none(t)
             out = []
             # a test over local names only that this path has already decided (same bindings) goes the same way again
             dkey = None
@@ -521,6 +523,24 @@ class Explorer:
         if isinstance(st, ast.FunctionDef):
             env.pop(st.name, None)
         return [p]
+
+
+def _display_vs_none(t):
+    """`X is None` / `X is not None` / `not X is None` where X is a tuple / list / dict / set display: a display is never None"""
+    neg = False
+    while isinstance(t, ast.UnaryOp) and isinstance(t.op, ast.Not):
+        t, neg = t.operand, not neg
+    if isinstance(t, ast.Compare) and len(t.ops) == 1 and isinstance(t.ops[0], (ast.Is, ast.IsNot)):
+        a, b = t.left, t.comparators[0]
+        if isinstance(a, ast.Constant) and a.value is None:
+            a, b = b, a
+        if isinstance(b, ast.Constant) and b.value is None and isinstance(a, (ast.Tuple, ast.List, ast.Dict, ast.Set)):
+            v = isinstance(t.ops[0], ast.IsNot)
+            return (not v) if neg else v
+        if isinstance(b, ast.Constant) and b.value is None and isinstance(a, ast.Constant):
+            v = (a.value is None) == isinstance(t.ops[0], ast.Is)
+            return (not v) if neg else v
+    return UNKNOWN
 
 
 def _self_evident(t, scope):
